@@ -496,11 +496,12 @@ def Verdict (bk : Backend) (creds : List Byte → List Byte → Prop) (x : Int) 
 
 def PlainCreds (linein : List Byte) (rd : List RdRes) (u pass : List Byte) : Prop :=
   ∃ resp rd' slop, Responded linein Gen.authPlainArgOffset rd rd' resp ∧ Base64.decode resp = .ok slop
-    ∧ plainFields slop = (u, pass)
+    ∧ plainFields slop = (u, pass) ∧ usernameInvalid u = false
 
 def LoginCreds (linein : List Byte) (rd : List RdRes) (u pass : List Byte) : Prop :=
   ∃ resp rd1 chunks rd2 line, Responded linein Gen.authLoginArgOffset rd rd1 resp ∧ Base64.decode resp = .ok u
     ∧ rd1 = chunks.map RdRes.chunk ++ rd2 ∧ IsLine chunks line ∧ Base64.decode line = .ok pass
+    ∧ usernameInvalid u = false
 
 theorem authPlain_ok {linein : List Byte} {bk : Backend} {i r : In} {x : Int} {u : List Byte} {ev : List Ev}
     (hs : Sane i) (h : authPlain linein bk i = .ok (x, u) r ev) :
@@ -531,7 +532,7 @@ theorem authPlain_ok {linein : List Byte} {bk : Backend} {i r : In} {x : Int} {u
       cases hf : plainFields slop with
       | mk user pass =>
         simp only [hf] at h2
-        by_cases hempty : user = [] ∨ pass = []
+        by_cases hempty : user = [] ∨ pass = [] ∨ usernameInvalid user = true
         · rw [if_pos hempty] at h2
           simp only [bind_ok, pure_def, pure_ok, Prod.mk.injEq] at h2
           obtain ⟨c, r2, ev3, ev4, he, ⟨⟨rfl, rfl⟩, rfl, rfl⟩, rfl⟩ := h2
@@ -544,9 +545,9 @@ theorem authPlain_ok {linein : List Byte} {bk : Backend} {i r : In} {x : Int} {u
           refine ⟨hb'.1.trans hr.1, ?_⟩
           rcases hb'.2.2 with ⟨rfl, hacc, _, rfl⟩ | ⟨rfl, hna, _, _⟩ | ⟨hneg, _⟩
           · left
-            refine ⟨rfl, hacc, pass, ev1, ⟨resp, r1.rd, slop, hr.2.2, hd, hf⟩, ?_, ?_, hr.2.1, by simp⟩
+            refine ⟨rfl, hacc, pass, ev1, ⟨resp, r1.rd, slop, hr.2.2, hd, hf, Bool.eq_false_iff.mpr (fun h0 => hempty (Or.inr (Or.inr h0)))⟩, ?_, ?_, hr.2.1, by simp⟩
             · intro h0; exact hempty (Or.inl h0)
-            · intro h0; exact hempty (Or.inr h0)
+            · intro h0; exact hempty (Or.inr (Or.inl h0))
           · exact Or.inr (Or.inl ⟨rfl, hna⟩)
           · exact Or.inr (Or.inr hneg)
 
@@ -620,7 +621,7 @@ theorem authLogin_ok {linein : List Byte} {bk : Backend} {i r : In} {x : Int} {u
               exact ⟨this.2.1.trans hrest3, Or.inr (Or.inr this.1)⟩
           | ok pass =>
             simp only [hd2] at h4
-            by_cases hempty : user = [] ∨ pass = []
+            by_cases hempty : user = [] ∨ pass = [] ∨ usernameInvalid user = true
             · rw [if_pos hempty] at h4
               simp only [bind_ok, pure_def, pure_ok, Prod.mk.injEq] at h4
               obtain ⟨c', r4, ev7, ev8, he, ⟨⟨rfl, rfl⟩, rfl, rfl⟩, rfl⟩ := h4
@@ -634,10 +635,10 @@ theorem authLogin_ok {linein : List Byte} {bk : Backend} {i r : In} {x : Int} {u
               rcases hb'.2.2 with ⟨rfl, hacc, _, rfl⟩ | ⟨rfl, hna, _, _⟩ | ⟨hneg, _⟩
               · left
                 refine ⟨rfl, hacc, pass, ev1 ++ ev3 ++ ev5,
-                  ⟨resp, r1.rd, chunks, r3.rd, line, hr.2.2, hd, by rw [← hn.2.1]; exact hrd, hline, hd2⟩,
+                  ⟨resp, r1.rd, chunks, r3.rd, line, hr.2.2, hd, by rw [← hn.2.1]; exact hrd, hline, hd2, Bool.eq_false_iff.mpr (fun h0 => hempty (Or.inr (Or.inr h0)))⟩,
                   ?_, ?_, (hr.2.1.append hq).append hg'.2.1, by simp⟩
                 · intro h0; exact hempty (Or.inl h0)
-                · intro h0; exact hempty (Or.inr h0)
+                · intro h0; exact hempty (Or.inr (Or.inl h0))
               · exact Or.inr (Or.inl ⟨rfl, hna⟩)
               · exact Or.inr (Or.inr hneg)
 
@@ -645,6 +646,10 @@ theorem authLogin_ok {linein : List Byte} {bk : Backend} {i r : In} {x : Int} {u
 /-- the credentials of an exchange, whichever mechanism -/
 def Creds (linein : List Byte) (rd : List RdRes) (u pass : List Byte) : Prop :=
   PlainCreds linein rd u pass ∨ LoginCreds linein rd u pass
+
+theorem Creds.clean {linein : List Byte} {rd : List RdRes} {u pass : List Byte} (h : Creds linein rd u pass) :
+    usernameInvalid u = false := by
+  rcases h with ⟨_, _, _, _, _, _, h⟩ | ⟨_, _, _, _, _, _, _, _, _, _, h⟩ <;> exact h
 
 /-- what is true of an AUTH command that sets `authname := u` -/
 structure Authenticated (bk : Backend) (linein : List Byte) (rd : List RdRes) (u : List Byte) (ev : List Ev) : Prop where
